@@ -291,9 +291,9 @@ Definition ex_p : header := mkH 15756211122218741455 false 259201 196 1700020908
 Definition ex_c1 : header := mkH 16778651588042410861 false 259202 197 1700020913 4198043 14176087422853201873119852669490256198431017178224220461167164017626882 0 992429421628473065 1043470323858477466 1582616325735433005369 588786790411 665840534652541215909 925420380 60302720516084618669 4767842668847 2 12500048 10019679 12500048 4134458 37619393 7793917193664559595 11.
 Definition ex_c2 : header := mkH 2729270095866957636 false 259203 198 1700020916 4185215 23449193357308590215938711026447113141398159744069429947878063802735527 0 749116563126906781 600717117076856693 2006182602391094194221 662733404104 1089406811308202404761 749608563 60302725283927287516 6179360 2 12500096 7995614 12500096 7904445 37609955 7793917193664559595 11.
 Definition ex_c3 : header := mkH 11991362714993284855 false 259204 199 1700020926 4179111 24121054769387286014938084304108983917806253462767040026099140844565816 0 1036900961082392689 1086900929261444322 2416355084715250491272 622944900482 1499579293632358701812 621699031 60302725283933466876 120058826286572042515 2 12500144 8124097 12500144 615735 37602407 7793917193664559595 11.
-Definition ex_e1 : env := mkEnv 1700020915 1 250000 50000000 (GpTime 1700020902) (mkG false false 769901847074247339142 2) (mkPT true false 2 1 true 2) (mkPT true false 2 0 true 2) 7179662860.
-Definition ex_e2 : env := mkEnv 1700020917 1 250000 50000000 (GpTime 1700020908) (mkG false false 992429421628473065 2) (mkPT true false 2 0 true 2) (mkPT true false 2 0 true 2) 7179662860.
-Definition ex_e3 : env := mkEnv 1700020931 1 250000 50000000 (GpTime 1700020913) (mkG false false 749116563126906781 2) (mkPT true false 2 0 true 2) (mkPT true false 2 0 true 2) 7179662860.
+Definition ex_e1 : env := mkEnv 1700020915 1 250000 50000000 (GpTime 1700020902) (mkG false false 769901847074247339142 2) (mkPT true false 2 1 true 2) (mkPT true false 2 0 true 2) 7179662860 (0, 0).
+Definition ex_e2 : env := mkEnv 1700020917 1 250000 50000000 (GpTime 1700020908) (mkG false false 992429421628473065 2) (mkPT true false 2 0 true 2) (mkPT true false 2 0 true 2) 7179662860 (0, 0).
+Definition ex_e3 : env := mkEnv 1700020931 1 250000 50000000 (GpTime 1700020913) (mkG false false 749116563126906781 2) (mkPT true false 2 0 true 2) (mkPT true false 2 0 true 2) 7179662860 (0, 0).
 Definition ex_chain := [(ex_e1, ex_c1); (ex_e2, ex_c2); (ex_e3, ex_c3)].
 
 Example valid_chain_nonvacuous :
@@ -343,3 +343,119 @@ Example history_nonvacuous :
   hist_run ctx_zone [] ops = map (hist_uncached ctx_zone) ops /\
   nth_error (hist_run ctx_zone [] ops) 0 = Some (Some (RZ 2006182602391094194221)).
 Proof. vm_compute. split; reflexivity. Qed.
+
+(** * the expansion number: ComputeExpansionNumber's "terminus is genesis" shortcut belongs to slice [0,0] only *)
+(* the whole rule as a specification: the prime terminus must be stored; in slice [0,0] a genesis terminus hands its
+   expansion number down; otherwise a terminus whose threshold count matured (trigger window + wait count) starts the
+   next expansion (uint8 arithmetic), else the expansion number is the one of the terminus' prime parent *)
+Theorem expansion_number_rule : forall l00 i x, expansion_of l00 i = Some x <->
+  pt_found i = true /\
+  ((pt_genesis i && l00 = true /\ x = pt_expansion i) \/
+   (pt_genesis i && l00 = false /\ matured i = true /\ x = u8 (pt_expansion i + 1)) \/
+   (pt_genesis i && l00 = false /\ matured i = false /\ ppt_found i = true /\ x = ppt_expansion i)).
+Proof. exact expansion_of_spec. Qed.
+Print Assumptions expansion_number_rule.
+
+(* accept => the child's expansion number is the rule's value for the node's slice and the child's prime terminus
+   (the parent itself when it is a prime block, else the block the parent names) *)
+Theorem valid_child_pins_expansion_per_slice : forall e p c, valid_child e p c = true ->
+  expansion_of (loc00 e) (terminus_view e p) = Some (h_expansion c).
+Proof. exact valid_child_expansion_view. Qed.
+Print Assumptions valid_child_pins_expansion_per_slice.
+
+(* both directions outside [0,0]: the child of a matured terminus - genesis of the slice or not - carries the NEXT
+   expansion number, and the old number (what the [0,0] shortcut would hand down) is not accepted *)
+Theorem matured_terminus_starts_next_expansion_outside_slice_00 : forall e p c,
+  valid_child e p c = true -> loc00 e = false ->
+  matured (terminus_view e p) = true -> 0 <= pt_expansion (terminus_view e p) < 256 ->
+  h_expansion c = u8 (pt_expansion (terminus_view e p) + 1) /\ h_expansion c <> pt_expansion (terminus_view e p).
+Proof. exact matured_terminus_other_slice. Qed.
+Print Assumptions matured_terminus_starts_next_expansion_outside_slice_00.
+
+Theorem genesis_terminus_keeps_expansion_in_slice_00 : forall e p c, valid_child e p c = true -> loc00 e = true ->
+  pt_genesis (terminus_view e p) = true -> h_expansion c = pt_expansion (terminus_view e p).
+Proof. exact genesis_terminus_original_slice. Qed.
+Print Assumptions genesis_terminus_keeps_expansion_in_slice_00.
+
+Theorem expansion_outside_slice_00_ignores_genesis_flag : forall f g e t pf pe g',
+  expansion_of false (mkPT f g e t pf pe) = expansion_of false (mkPT f g' e t pf pe).
+Proof. exact expansion_of_other_slice_ignores_genesis. Qed.
+Print Assumptions expansion_outside_slice_00_ignores_genesis_flag.
+
+(* observed on the real code (harness, verify case of parent shape 7): node location [1,0], the parent is the
+   expansion genesis of the slice (expansion number 1, threshold count 1168 = 144 + 1024); the accepted child carries
+   expansion number 2; the same child with the old number 1 is rejected.  In slice [0,0] it is the other way round. *)
+Definition with_expansion (c : header) (x : Z) : header :=
+  mkH (h_hash c) (h_genesis c) (h_num c) (h_num_prime c) (h_time c) (h_diff c) (h_pow c) (h_ws c) (h_pe_p c) (h_pe_r c) (h_pe_z c)
+      (h_pd_r c) (h_pd_z c) (h_pud_r c) (h_pud_z c) (h_uncled c) x (h_gas_limit c) (h_gas_used c)
+      (h_state_limit c) (h_state_used c) (h_base_fee c) (h_pt_hash c) (h_pt_num c).
+Definition with_loc (e : env) (l : Z * Z) : env :=
+  mkEnv (e_now e) (e_dl e) (e_mind e) (e_gas_ceil e) (e_gp e) (e_gcase e) (e_pt_self e) (e_pt_ref e) (e_er_pt e) l.
+Definition ex_g_env : env := mkEnv 1700017047 5 750000000000 61078297 GpNone (mkG false true 0 1) (mkPT true true 1 1168 true 1) (mkPT true false 1 0 true 1) 135055882200410184 (1, 0).
+Definition ex_g : header := mkH 1465339490825810992 true 0 0 1700015289 750000047353 1 0 0 0 0 0 0 0 0 0 1 0 0 0 0 0 2879876176812484073 0.
+Definition ex_gc : header := mkH 4857028232308997627 false 1 1 1700015297 750000047353 95347348776236488148298487346635213657089458515259266305309266198 0 855146307505988699 791796227994359420 0 733069157310 0 654070479 0 535043239890004 2 0 0 0 0 0 1465339490825810992 0.
+Example expansion_genesis_nonvacuous :
+  valid_child ex_g_env ex_g ex_gc = true /\ h_expansion ex_gc = 2 /\ loc00 ex_g_env = false /\
+  matured (terminus_view ex_g_env ex_g) = true /\ pt_genesis (terminus_view ex_g_env ex_g) = true /\
+  valid_child ex_g_env ex_g (with_expansion ex_gc 1) = false /\
+  valid_child (with_loc ex_g_env (0, 0)) ex_g (with_expansion ex_gc 1) = true /\
+  valid_child (with_loc ex_g_env (0, 0)) ex_g ex_gc = false /\
+  valid_child (with_loc ex_g_env (0, 1)) ex_g ex_gc = true.
+Proof. vm_compute. repeat split; reflexivity. Qed.
+
+(** * VerifyHeader / AppendHeader: the verdict does not depend on the storage history of the header *)
+(* the run the correspondence check evaluates is the model's run *)
+Theorem store_run_fast_is_store_run : forall e p c ops,
+  store_run_fast e p c ops = store_run (Some (e, p)) c StUnknown ops.
+Proof. exact store_run_fast_eq. Qed.
+Print Assumptions store_run_fast_is_store_run.
+
+(* a header that was merely stored as a candidate (HeaderChain.WriteBlock: every block received from a peer, every
+   failed append) is verified exactly like a header never seen; only a header that is part of the chain is skipped *)
+Theorem verify_header_ignores_candidates : forall par c,
+  verify_header_top StCandidate par c = verify_header_top StUnknown par c.
+Proof. exact verify_top_ignores_candidate. Qed.
+Print Assumptions verify_header_ignores_candidates.
+
+Theorem verify_header_accepts_only_valid_children_or_chain_members : forall st e p c,
+  verify_header_top st (Some (e, p)) c = true -> st = StAppended \/ valid_child e p c = true.
+Proof. exact verify_top_sound. Qed.
+Print Assumptions verify_header_accepts_only_valid_children_or_chain_members.
+
+(* for EVERY history of VerifyHeader / AppendHeader calls, candidate writes, purges and restarts on a header that is
+   not part of the chain, every verdict is verifyHeader's verdict on (stored parent, child) *)
+Theorem verify_header_verdict_independent_of_storage_history : forall e p c ops st,
+  st <> StAppended -> forallb not_commit ops = true ->
+  Forall (fun o => o = None \/ o = Some (valid_child e p c)) (store_run (Some (e, p)) c st ops).
+Proof. exact store_run_verdicts. Qed.
+Print Assumptions verify_header_verdict_independent_of_storage_history.
+
+(* the node: blocks arrive in any order, are stored as candidates and/or appended; every header that enters the
+   chain was there before or is a valid child of the stored parent it was verified against ... *)
+Theorem node_appends_only_valid_children : forall look s0 ops x,
+  In x (ns_appended (node_run look s0 ops)) -> In x (ns_appended s0) \/ accepted_by look x.
+Proof. exact node_appends_valid. Qed.
+Print Assumptions node_appends_only_valid_children.
+
+(* ... and the chain it builds is the same with every candidate write removed from the history *)
+Theorem node_chain_independent_of_candidate_writes : forall look ops s,
+  ns_appended (node_run look s ops) = ns_appended (node_run look s (filter (fun o => negb (is_write o)) ops)).
+Proof. exact (fun look ops s => node_run_ignores_writes look ops s s eq_refl). Qed.
+Print Assumptions node_chain_independent_of_candidate_writes.
+
+(* the deviating sibling of the observed child (difficulty + 1) stays rejected through a history of candidate writes,
+   a purge and a restart; after the commit of the VALID child VerifyHeader short-circuits *)
+Definition with_diff (c : header) (d : Z) : header :=
+  mkH (h_hash c) (h_genesis c) (h_num c) (h_num_prime c) (h_time c) d (h_pow c) (h_ws c) (h_pe_p c) (h_pe_r c) (h_pe_z c)
+      (h_pd_r c) (h_pd_z c) (h_pud_r c) (h_pud_z c) (h_uncled c) (h_expansion c) (h_gas_limit c) (h_gas_used c)
+      (h_state_limit c) (h_state_used c) (h_base_fee c) (h_pt_hash c) (h_pt_num c).
+Example store_nonvacuous :
+  let ops := [SoVerify; SoWrite; SoVerify; SoPurge; SoAppendHeader; SoRestart; SoVerify] in
+  store_run (Some (ex_e1, ex_p)) (with_diff ex_c1 (h_diff ex_c1 + 1)) StUnknown ops =
+    [Some false; None; Some false; None; Some false; None; Some false] /\
+  store_run (Some (ex_e1, ex_p)) ex_c1 StUnknown (ops ++ [SoCommit; SoVerify]) =
+    [Some true; None; Some true; None; Some true; None; Some true; None; Some true] /\
+  ns_appended (node_run (fun _ => Some (ex_e1, ex_p)) (mkNS [] [])
+     [NWrite (with_diff ex_c1 (h_diff ex_c1 + 1)); NAppend (with_diff ex_c1 (h_diff ex_c1 + 1)); NWrite ex_c1; NAppend ex_c1])
+    = [h_hash ex_c1].
+Proof. vm_compute. repeat split; reflexivity. Qed.
